@@ -1,7 +1,7 @@
 (* Translator tie: the definitions REGENERATED from /repo/core/src/socket/options.rs (Extracted/OptionsX.v) are the
    model's (Model/Options.v): constants and tables by computation, the integer parsers for EVERY i32 (i64 for
    MAXMSGSIZE).  Re-proved on every run; a change of the source that alters the meaning of an option breaks a lemma. *)
-From RZ Require Import Base.Prelude Model.Engine Model.Options Extracted.OptionsX Proofs.OptionsProofs.
+From RZ Require Import Base.Prelude Model.Engine Model.Options Model.EngineCfg Extracted.OptionsX Proofs.OptionsProofs.
 Local Open Scope Z_scope.
 
 Lemma x_consts_ok : forallb (fun '(a, b) => a =? b) x_consts = true.
@@ -67,3 +67,13 @@ Theorem x_apply_ok o id b : apply_with x_apply_rules x_apply_unsupported o id b 
 Proof. now rewrite x_apply_rules_ok, x_apply_unsupported_ok. Qed.
 Theorem x_retrieve_ok o id : retrieve_with x_get_rules x_get_unsupported o id = retrieve_opt o id.
 Proof. now rewrite x_get_rules_ok, x_get_unsupported_ok. Qed.
+
+(* impl From<&SocketOptions> for ZmtpEngineConfig and calculate_required_slot_size (Model/EngineCfg.v) *)
+Lemma x_sec_fields_ok : x_sec_fields = sec_fields.
+Proof. reflexivity. Qed.
+Lemma x_cfg_copies_ok : x_cfg_copies = cfg_copies.
+Proof. reflexivity. Qed.
+Lemma x_uring_snd_buffer_ok : x_uring_snd_buffer = URING_SND_BUFFER.
+Proof. reflexivity. Qed.
+Lemma x_slot_raw_ok target count : x_slot_raw target count = slot_raw target count.
+Proof. reflexivity. Qed.
